@@ -104,6 +104,22 @@ def graph_shard(seed: int, examples: int, known: list[str]) -> dict:
                 self.flags.add("final_released")
                 self.edges = {(w, x) for (w, x) in self.edges if x != i}
 
+        @rule(i=st.integers(0, N - 1), tgt=st.sampled_from(["SUCCESS", "FAILED", "CONCURRENCY_CONTROLLED_FINAL", "KILLED", "RETRY"]), runner=st.sampled_from(["A", "B", "Z"]))
+        def rejected_request(self, i, tgt, runner):
+            target = tgt
+            """A request the lifecycle refuses (foreign runner, missing edge): the wait graph must be exactly as before."""
+            out, _, _ = L.step(self.status[i], self.owner[i], target, runner)
+            if out == L.OK:
+                return
+            self._t("rejected", i, target, runner)
+            for k, app in self.apps.items():
+                try:
+                    app.orchestrator.set_invocation_status(self.ids[k][i], S[target], apps.rctx(runner))
+                except Exception:  # noqa: BLE001 - the refusal
+                    continue
+                rep.fail(f"graph:{k}:refusable-request-accepted", f"{self.status[i]}/{self.owner[i]} -> {target} by {runner} was accepted")
+            self.flags.add("rejected_request")
+
         @rule(i=st.integers(0, N - 1), how=st.sampled_from(["SUCCESS", "FAILED", "CONCURRENCY_CONTROLLED_FINAL"]))
         def finish(self, i, how):
             """Drive invocation i to a final status along the shortest public path (finals release waiters)."""
